@@ -36,6 +36,15 @@ def gen(rng, k):
     w = 10 ** rng.uniform(-4, 2, n) if k % 4 == 0 else rng.uniform(0.01, 100, n)
     if k % 5 == 0:
         w[:] = 1.0
+    if k % 7 == 3 and n >= 5:
+        # some points of zero weight ("non-negative weights"): they do not count for the weighted fit, but the plain
+        # optimiser still uses them; at least three affinely independent indices keep a positive weight
+        for _ in range(20):
+            z = rng.random(n) < 0.3
+            keep = ~z
+            if z.any() and keep.sum() >= 3 and np.linalg.matrix_rank(np.hstack([np.ones((keep.sum(), 1)), idx[keep]])) == 3:
+                w[z] = 0.0
+                break
     return {"idx": idx, "pts": pts, "w": w}
 
 
@@ -66,7 +75,7 @@ def corr(ctx, drv):
             m = grm.Matcher().affinematch(centers=pts, indices=idx, refineds=pts, peak_elevations=w,
                                           peak_values=np.ones(len(w)))
             scale = max(1.0, np.abs(pts).max())
-            tol = 1e-7 * scale * max(1.0, (w.max() / w.min()) ** 0.5)
+            tol = 1e-7 * scale * max(1.0, (w.max() / w[w > 0].min()) ** 0.5)
             if mf is None:
                 msgs.append("model: singular normal equations for a rank-3 design")
             else:
@@ -128,7 +137,7 @@ def run_case(kind, p):
     L = np.array(p["L"]) if "L" in p else np.eye(2)
     t = np.array(p.get("t", [0.0, 0.0]))
     m2 = M.affinematch(centers=pts, indices=idx, refineds=pts @ L.T + t, peak_elevations=w, peak_values=ones)
-    tol = 1e-6 * scale * max(1.0, np.abs(L).max()) * max(1.0, (w.max() / w.min()) ** 0.5)
+    tol = 1e-6 * scale * max(1.0, np.abs(L).max()) * max(1.0, (w.max() / w[w > 0].min()) ** 0.5)
     if np.abs(m2.zero - (L @ m.zero + t)).max() > tol or np.abs(m2.a - L @ m.a).max() > tol \
             or np.abs(m2.b - L @ m.b).max() > tol:
         msgs.append("fit of affinely mapped positions is not the mapped fit")
